@@ -303,6 +303,19 @@ int main(void)
         else if (!strcmp(cmd, "sendonact")) { sscanf(line, "%*s %d", &send_on_act); }
         else if (!strcmp(cmd, "peerclose")) { int ci; sscanf(line, "%*s c%d", &ci); if (ci >= 0 && ci < nsocks && socks[ci]) Sim_peerClose(socks[ci]); }
         else if (!strcmp(cmd, "wmode")) { int ci, m; sscanf(line, "%*s c%d %d", &ci, &m); if (ci >= 0 && ci < nsocks && socks[ci]) socks[ci]->writeMode = m; }
+        else if (!strcmp(cmd, "appsend")) {
+            /* (C07) the application sends a deferred response on the connection handle it kept (outside any handler) */
+            int ci; sscanf(line, "%*s c%d", &ci); MasterConnection mc = con_of(ci);
+            if (mc) {
+                CS101_AppLayerParameters alp = IMasterConnection_getApplicationLayerParameters(&mc->iMasterConnection);
+                CS101_ASDU a = CS101_ASDU_create(alp, false, CS101_COT_ACTIVATION_TERMINATION, 0, 1, false, false);
+                InformationObject io = (InformationObject) InterrogationCommand_create(NULL, 0, 20);
+                CS101_ASDU_addInformationObject(a, io); InformationObject_destroy(io);
+                bool r = IMasterConnection_sendASDU(&mc->iMasterConnection, a);
+                printf("send c%d deferred ret=%d\n", ci, r);
+                CS101_ASDU_destroy(a);
+            }
+        }
         else if (!strcmp(cmd, "appclose")) { int ci; sscanf(line, "%*s c%d", &ci); MasterConnection mc = con_of(ci); if (mc) IMasterConnection_close(&mc->iMasterConnection); }
         else if (!strcmp(cmd, "poke")) {
             int ci, vs, vr; sscanf(line, "%*s c%d vs=%d vr=%d", &ci, &vs, &vr);
